@@ -473,7 +473,13 @@ def main(argv=None):
     ck = Check("C03", argv)
     common.setup_impl_env()
     ck.run_witnesses(["w02", "w04", "w18"])
-    ck.prove(extra_targets=["Model/WindowFloat.v"])
+    ck.prove(extra_targets=["Model/WindowFloat.v", "Bridge/BridgeWindow.v"],
+             gen_kernels=["Bucket.get", "Bucket.get_eventcount", "MemoryStorage.get_events.filters",
+                          "MemoryStorage.get_eventcount", "PeeweeStorage.get_events.trim",
+                          "SqliteStorage.get_events.sql", "SqliteStorage.get_eventcount.sql"])
+    # the float-dependent statements live in their own file, so that Props/C03.v (the list/Z development) stays
+    # free of primitive floats and of the real-number axioms
+    ck.prove("Props/C03Float.v")
     have_driver = ck.driver("ExC03")
 
     quick = ck.tier == "quick"
@@ -619,9 +625,9 @@ def main(argv=None):
     ck.assumptions += [
         "Section hypothesis sql_end_err (SQLite's julianday/strftime arithmetic, peewee): measured on the engine for every "
         "stored row of every case, see coverage.sql_end_hypothesis",
-        "Section hypotheses plo_err / phi_err (sqlite float window parameters within 1 us of the instant for 0 <= t < 2^52): "
-        "the parameters are evaluated bit-exactly inside Coq (Model/WindowFloat.v) for every query and fed to the model; "
-        "the bound itself awaits the floats agent's Flocq lemma",
+        "premise float_param_ok (sqlite float window parameters within 1 us of the instant for 0 <= t < 2^52): discharged "
+        "for the code's own expression in Props/C03Float.v (Proofs/CodecWindow.sq_param_within_1us, Flocq); independently "
+        "the parameters are evaluated bit-exactly inside Coq (Model/WindowFloat.v) for every query and fed to the model",
         "TEXT comparison of isoformat(' ') against strftime('%f') output is modelled arithmetically "
         "(Window.text_le_iso_ms); compared exactly on every peewee query",
         "window datetimes carry whole-minute utcoffsets (-12h..+14h); sub-millisecond utcoffsets are exercised for the "
